@@ -210,6 +210,9 @@ class RenderContext:
             try:
                 return obj["size"]
             except (KeyError, IndexError, TypeError):
+                if isinstance(obj, range):
+                    # `len()` would overflow for a range longer than `sys.maxsize`.
+                    return max(0, (obj.stop - obj.start + obj.step - 1) // obj.step)
                 if isinstance(obj, Sized):
                     return len(obj)
                 raise
@@ -247,6 +250,9 @@ class RenderContext:
             try:
                 return await _get_item(obj, "size")
             except (KeyError, IndexError, TypeError):
+                if isinstance(obj, range):
+                    # `len()` would overflow for a range longer than `sys.maxsize`.
+                    return max(0, (obj.stop - obj.start + obj.step - 1) // obj.step)
                 if isinstance(obj, Sized):
                     return len(obj)
                 raise
